@@ -350,3 +350,6 @@ func (l *Listener) DialPairPlanned(plan func(clientAddr string)) (client, server
 		return nil, nil, opErr("dial", ErrRefused)
 	}
 }
+
+// Peer returns the other end of the connection.
+func (c *Conn) Peer() *Conn { return c.peer }
